@@ -18,8 +18,8 @@ ASSUMPTIONS = [
     'lifecycle hooks do not raise; no kill requests (C04)',
 ]
 BUDGET = {
-    'quick': {'enum': ['k1', 'k2', 'self2', 'listener', 'wc1', 'wc2', 'afterkill', 'reload'], 'hyp': 4000, 'shards': 8},
-    'thorough': {'enum': ['k1', 'k2', 'k3', 'k4w', 'self3', 'listener', 'wc1', 'wc2', 'wc3', 'afterkill', 'reload'], 'hyp': 120000, 'shards': 16},
+    'quick': {'enum': ['k1', 'k2', 'self2', 'listener', 'wc1', 'wc2', 'afterkill', 'reload', 'withdraw'], 'hyp': 4000, 'shards': 8},
+    'thorough': {'enum': ['k1', 'k2', 'k3', 'k4w', 'self3', 'listener', 'wc1', 'wc2', 'wc3', 'afterkill', 'reload', 'withdraw'], 'hyp': 120000, 'shards': 16},
 }
 ALPHABET = [['pause', 'pm'], ['pause', None], ['play'], ['resume', 1]]
 ALPHABET_SMALL = [['pause', 'pm'], ['play'], ['resume', 1]]
@@ -47,6 +47,17 @@ def enumerate_cases(tier, scope):
             for pre in ([['tick', 1]], [['tick', 2]]):
                 for mid in ([['pause', 'pm'], ['tick', 2], ['reload'], ['tick', 1], ['play']], [['pause', None], ['tick', 2], ['reload'], ['play'], ['pause', 'x'], ['tick', 1], ['reload'], ['play']], [['reload'], ['pause', 'pm'], ['tick', 1], ['play']], [['pause', 'pm'], ['tick', 2], ['reload'], ['reload'], ['play']]):
                     yield {'program': cat[name], 'schedule': pre + mid, 'tag': f'reload:{name}'}
+    elif scope == 'withdraw':
+        # the caller cancels the future that a pending pause() returned (it gives up waiting for it): that request is
+        # withdrawn like by a play(), and a later pause must work
+        alpha = [['pause', 'pm'], ['pause', 'p2'], ['withdraw', 'pause'], ['play'], ['resume', 1]]
+        for name in ('async2', 'wait1', 'gated', 'chain', 'waitwait'):
+            for kk in (2, 3):
+                for sched in gen.schedules(alpha, kk, 2):
+                    kinds = [e[0] for e in sched]
+                    if 'withdraw' not in kinds or kinds.index('withdraw') == 0 or 'pause' not in kinds[: kinds.index('withdraw')]:
+                        continue
+                    yield {'program': cat[name], 'schedule': [['tick', 1]] + sched, 'tag': f'withdraw:{name}'}
     elif scope == 'afterkill':
         # pause()/play() never raise, also around a termination (no twin comparison for these)
         for name in ('async2', 'wait1', 'chain', 'gated'):
@@ -95,7 +106,7 @@ def _cases(draw, tier):
             kwargs=False,
         )
     )
-    sched = draw(gen.control_schedules(['pause', 'pause', 'play', 'play', 'resume', 'open', 'reload'], max_events=5, max_gap=4))
+    sched = draw(gen.control_schedules(['pause', 'pause', 'play', 'play', 'resume', 'open', 'reload', 'withdraw_pause'], max_events=5, max_gap=4))
     plans = draw(gen.listener_plans(['pause', 'play'])) if draw(st.integers(0, 2)) == 0 else []
     return {'program': prog, 'schedule': sched, 'listener': plans}
 
@@ -142,7 +153,8 @@ def execute(case):
 
     # a pause that was not withdrawn takes effect at the next step boundary: no new step is entered after it
     sched_calls = calls[: a['n_calls_schedule']]
-    pp = sorted((r for r in sched_calls if r['what'] in ('pause', 'play')), key=lambda r: r['begin'])
+    # (a pause whose returned future the caller cancelled is withdrawn: it makes no claim)
+    pp = sorted((r for r in sched_calls if r['what'] in ('pause', 'play') and not r.get('withdrawn')), key=lambda r: r['begin'])
     if pp and pp[-1]['what'] == 'pause' and pp[-1]['live_before'] and not pp[-1]['raised']:
         last = pp[-1]
         pre = a['pre_settle']
@@ -199,6 +211,8 @@ def execute(case):
             pending = False
         elif r['what'] == 'pause':
             pending = False
+    if any(r.get('withdrawn') for r in calls):
+        classes.append('pause-future-cancelled-by-caller')
     if effective:
         classes.append('pause-effective')
     if withdrawn:
